@@ -111,6 +111,11 @@ func (m *CPU) Run(app risc.Application) (int, error) {
 		for _, eu := range m.executeUnits {
 			f, fp, p, r, err := eu.cycle(cycle, m.ctx, app)
 			if err != nil {
+				if flush {
+					// Raised by an instruction younger than the mispredicted
+					// branch: it is on the wrong path and about to be flushed
+					continue
+				}
 				return 0, err
 			}
 			if f {
